@@ -100,9 +100,12 @@ def _case(draw, tier):
         nvar * (rep_max // 500 + 1)
     crashes = []
     for _ in range(ncr):
-        kind = draw(st.sampled_from(["call", "call", "write", "write",
-                                     "write", "replace", "remove"]))
-        if kind == "call":
+        kind = draw(st.sampled_from(["call", "call", "merge", "write",
+                                     "write", "write", "replace", "remove"]))
+        if kind == "merge":
+            crashes.append({"at": "merge", "n": draw(st.integers(0,
+                                                                 max_calls))})
+        elif kind == "call":
             if period:
                 n = draw(st.one_of(
                     st.integers(0, max_calls),
@@ -124,6 +127,10 @@ def _case(draw, tier):
                             "k": draw(st.integers(0, nvar - 1)),
                             "when": draw(st.sampled_from(["before",
                                                           "after"]))})
+    for c in crashes:
+        # how the run is interrupted: process death or Ctrl-C (the library's
+        # own handlers run before the process exits)
+        c["exc"] = draw(st.sampled_from(["kill", "kill", "ctrlc"]))
     cfg = dict(idspace=(ncr + 2) * nvar * (rep_max + 1) + 4,
                unpacked=unpacked, container={}, fixed=[["bias", 1.5],
                                                        ["mode", "x"]],
@@ -177,6 +184,7 @@ def _enumerate(tier):
     for cfg in cfgs:
         n = _dry_run_counts(cfg)
         specs = [{"at": "call", "n": i} for i in range(n["calls"])]
+        specs += [{"at": "merge", "n": i} for i in range(n["calls"])]
         for k in range(n["writes"]):
             specs += [{"at": "write", "k": k, "prefix": p} for p in PREFIXES]
         for k in range(n["replaces"]):
@@ -186,8 +194,9 @@ def _enumerate(tier):
             specs += [{"at": "remove", "k": k, "when": w}
                       for w in ("before", "after")]
         for s in specs:
-            cases.append(dict(part="enum", cfg=cfg, crashes=[s],
-                              final="same"))
+            for exc in ("kill", "ctrlc"):
+                cases.append(dict(part="enum", cfg=cfg,
+                                  crashes=[dict(s, exc=exc)], final="same"))
     return cases
 
 
@@ -201,6 +210,8 @@ def _enumerate_pairs(tier):
     cfg = dict(_enum_cfg([301], "", False), rep_max=3)
     n = _dry_run_counts(cfg)
     specs = [{"at": "call", "n": i} for i in range(n["calls"])]
+    specs += [{"at": "merge", "n": i, "exc": "ctrlc"}
+              for i in range(n["calls"])]
     for k in range(n["writes"]):
         specs += [{"at": "write", "k": k, "prefix": p}
                   for p in ("open", "half", "full")]
@@ -214,7 +225,9 @@ def _enumerate_pairs(tier):
 def _realproc_case(draw, tier):
     c = draw(_case(tier))
     c["part"] = "realproc"
-    c["crashes"] = c["crashes"][:1]
+    c["crashes"] = [dict(c["crashes"][0], exc="kill")]
+    if c["crashes"][0]["at"] == "merge":
+        c["crashes"][0]["at"] = "call"
     c["final"] = "same"
     if c["cfg"]["rep_max"] > 20:
         c["cfg"]["rep_max"] = 7
@@ -338,23 +351,29 @@ def _run_scenario(case, ctx, tmp, real_exit_first=False):
         paths, final_path = _partial_paths(cfg, env)
         for ci, crash in enumerate(case["crashes"]):
             env.run_no = ci
-            inj.new_run(crash if crash["at"] != "call" else None)
+            inj.new_run(crash if crash["at"] not in ("call", "merge")
+                        else None)
+            env.exc_kind = crash.get("exc", "kill")
             env.crash_at_call = (env.n_attempts_total + crash["n"]
                                  if crash["at"] == "call" else None)
+            env.trap_at_call = (env.n_attempts_total + crash["n"]
+                                if crash["at"] == "merge" else None)
             had_durable = bool(_durable_ids(inj, paths, tags, "before run"))
             runner = H.make_runner(env)
             try:
                 runner.simulate()
                 fired = False
-            except H.SimulatedCrash:
+            except (H.SimulatedCrash, KeyboardInterrupt):
                 fired = True
-            env.crash_at_call = None
+            env.crash_at_call = env.trap_at_call = None
+            env.exc_kind = "kill"
             tags["last_fired"] = inj.fired or ("call" if fired else None)
             if fired:
                 fired_any = True
                 ctx.label("fired:" + crash["at"] +
                           (":" + crash.get("prefix", crash.get("when", ""))
-                           if crash["at"] != "call" else ""))
+                           if crash["at"] not in ("call", "merge") else ""),
+                          "exc=" + crash.get("exc", "kill"))
                 if crash["at"] in ("write", "replace") or had_durable or \
                         _durable_ids(inj, paths, tags, "after crash"):
                     nontrivial = True
